@@ -1,0 +1,20 @@
+//go:build verif
+
+package geom
+
+// Zero-annotation safety sweep over the algorithm helpers (C20 panic-freedom,
+// C10 frame): every function of these files that is not excluded below is
+// verified against the automatic contract (type invariants of parameters
+// assumed, no panic, no write to caller-visible memory, type invariants of
+// results).  Excluded functions need preconditions or constructs the sweep
+// cannot supply (see DESIGN.md 9.3); they are not counted as verified.
+
+//@ prop C20,C10
+//@ sweep /util.go -arbitraryControlPoint -sortAndUniquifyXYs -uniquifyGroupedXYs -fastMin -fastMax -sortFloat64Pair -maxInt
+//@ sweep /line.go -intersectLine -leftmostThenLowestIndex -rightmostThenHighestIndex -symmetricLineIntersection
+//@ sweep /alg_orientation.go
+//@ sweep /alg_point_in_ring.go -hasCrossing -relatePointToPolygon -relatePointToRing
+//@ sweep /alg_point_on_surface.go -pointOnAreaSurface -sortAndUniquifyFloats
+//@ sweep /alg_intersects.go -Intersects -hasIntersectionBetweenLines -hasIntersectionMultiPointWithMultiPoint -hasIntersectionMultiPolygonWithMultiPolygon
+//@ sweep /alg_distance.go -Distance -distBetweenLineAndLine -distBetweenXYAndLine
+//@ sweep /alg_intersection.go -intersectionOfIndexedLines -intersectionOfMultiPointAndMultiPoint
